@@ -13,7 +13,7 @@ func init() {
 	register("C14", "Decides structural necessary conditions of 'storing issuance chains outside the backend is invisible to readers': "+
 		"(R1) every function of the front end that issues the backend's GetLeavesByRange / GetEntryAndProof (the rpc* wrapper, or the handler itself) is a declared function with one call site and is bound by R2; each handler reaches its RPC exactly once, itself or through the one function it calls that issues it; "+
 		"(R2) a function that issues the RPC returns success only if FixLogLeaf returned nil for every leaf of the reply (the loop that fixes the leaves covers Leaves[0..len) and stands between the reply and every success return; a single leaf is skipped only when absent), its failure is a 500; "+
-		"(R3) FixLogLeaf: every error of the chain lookup, of its ASN.1 decoding (incl. trailing bytes) and of re-encoding is returned; leaf.ExtraData is stored only on all-success paths with the re-encoded full structure; a hash-form layout with a non-empty hash always goes through the lookup (the lookup is skipped only for an empty hash); full-chain layouts return nil without touching the leaf; no layout matched ⇒ error; "+
+		"(R3) FixLogLeaf: every error of the chain lookup, of its ASN.1 decoding (incl. trailing bytes) and of re-encoding is returned; leaf.ExtraData is stored only on all-success paths with the re-encoded full structure; a hash-form layout with a non-empty hash always goes through the lookup (the lookup is skipped only for an empty hash); full-chain layouts return nil without touching the leaf; no layout matched ⇒ error; each of the four layouts is taken only on an exact match (extra data that fails to decode as it, or decodes with bytes left over, reaches the next probe without any lookup, decoding, re-encoding, store through the leaf or success) every layout is probed before any verdict when the others do not match, and a rewrite is final (no layout is probed on the re-inflated bytes, nil is returned) — all of these decided on the value each return yields on the path that leads to it, whatever expression or local carries the verdict; "+
 		"(R4) writer and reader use the identical Go types: the writer stores asn1.Marshal(raw[1:]) of []ct.ASN1Cert under its hash and embeds (raw[0], hash); the reader decodes into []ct.ASN1Cert and re-inflates PrecertChainEntry{PreCertificate ← stored, CertificateChain ← chain} / CertificateChain{Entries ← chain} — the types the in-backend mode writes; "+
 		"(R5) add: key = SHA-256(chain), a storage error is returned, the cache is filled only after the storage write succeeded, a cache hit short-cuts only when err == nil and the entry is non-nil; getByHash: cache error or hit is returned as is, storage error is returned, the cache is filled only after a successful storage read; "+
 		"(R6) a chain read from storage is compared with its key (SHA-256) before either use: before it is served and before it is handed to the cache (cache hits are served unchecked); (R7) the four extra-data layouts have the prefix widths FixLogLeaf's discrimination assumes; "+
@@ -194,7 +194,8 @@ func runC14(r *Run) {
 		probes := c14Probes(r, fix, "FixLogLeaf")
 		// a layout is taken only on an exact match, and every layout gets its turn (rules_t6c14.go)
 		c14LayoutExact(r, fix, probes, stores)
-		c14LayoutAsked(r, fix, probes)
+		c14LayoutTurn(r, fix, probes)
+		c14RewriteFinal(r, fix, probes, stores)
 		for _, full := range []string{"ct.PrecertChainEntry", "ct.CertificateChain"} {
 			for _, p := range probes {
 				if p.typ != full {
@@ -675,32 +676,4 @@ func c14CoversAll(r *Run, call ssa.CallInstruction, sliceGlob string) (bool, str
 		return false, ": the loop is not entered exactly while counter < len"
 	}
 	return true, ""
-}
-
-// nonNilUnder: v is non-nil whenever it is produced along the edges of the walk
-// (a φ is looked at edge by edge; constructed errors and allocations are non-nil).
-func nonNilUnder(v ssa.Value, reach *Reach) bool {
-	seen := map[ssa.Value]bool{}
-	var f func(v ssa.Value) bool
-	f = func(v ssa.Value) bool {
-		if seen[v] {
-			return true
-		}
-		seen[v] = true
-		if ph, ok := v.(*ssa.Phi); ok {
-			any := false
-			for i, e := range ph.Edges {
-				if reach != nil && !reach.Edges[[2]int{ph.Block().Preds[i].Index, ph.Block().Index}] {
-					continue
-				}
-				any = true
-				if !f(e) {
-					return false
-				}
-			}
-			return any
-		}
-		return errKind(v) == "non" || neverNil(v)
-	}
-	return f(v)
 }
